@@ -23,12 +23,16 @@ type C05Params struct {
 	DepItem  bool     // chain only: D runs a worker too
 	ItemsErr bool     // items return an error instead of nil
 	Holder   bool     // another thread takes and releases the module's (exported) read lock twice while the stop runs
+	Second   bool     // shutdown only: a second thread calls Shutdown concurrently; whichever call returns, returns only after the stop routine and the work returned
 }
 
 func (p C05Params) Name() string {
 	n := fmt.Sprintf("c05/%s/%s/items=%s/pts=%d/stop=%s/dep=%v/err=%v", p.Graph, p.Trigger, strings.Join(p.Items, "+"), p.ItemPts, p.StopFn, p.DepItem, p.ItemsErr)
 	if p.Holder {
 		n += "/holder"
+	}
+	if p.Second {
+		n += "/second"
 	}
 	return n
 }
@@ -357,6 +361,25 @@ func VerifC05(p C05Params) *vsched.Scenario {
 			}()
 		}
 		var err error
+		secondDone := make(chan struct{})
+		if p.Second {
+			go func() {
+				defer close(secondDone)
+				vsched.Point("second-shutdown-call")
+				_ = Shutdown()
+				vsched.Ev("second-shutdown-returned")
+				if vsched.Now() <= s.cancelNow+moduleStopTimeout {
+					if p.StopFn != "none" && !s.stopEnded {
+						verifFail("returns-only-after-stop-routine-returned", "second-shutdown-call", "a concurrent second Shutdown call returned while the stop routine of %s has not returned", s.m.Name)
+					}
+					if !s.allEnded() {
+						verifFail("returns-only-after-work-returned", "second-shutdown-call", "a concurrent second Shutdown call returned while work is still running: %s", s.pending())
+					}
+				}
+			}()
+		} else {
+			close(secondDone)
+		}
 		if p.Trigger == "shutdown" {
 			err = Shutdown()
 		} else {
@@ -366,9 +389,12 @@ func VerifC05(p C05Params) *vsched.Scenario {
 		vsched.Ev("trigger-returned")
 		s.triggerDone = true
 		retNow := vsched.Now()
+		<-secondDone
 		vsched.Explore(false)
 
-		if (p.StopFn == "error" || p.StopFn == "panic") != (err != nil) {
+		if p.Second {
+			// one of the two calls reports "already initiated"; which one is up to the schedule
+		} else if (p.StopFn == "error" || p.StopFn == "panic") != (err != nil) {
 			verifFail("stop-error-is-returned", p.Trigger, "trigger returned %v with stop routine variant %q", err, p.StopFn)
 		}
 		// (b) the trigger returns only after everything returned
